@@ -135,6 +135,12 @@ Definition c18_timeout_unparse (a : list Z) : list Z :=
   | None => []
   end.
 
+(* a number in halmos.toml: [i] / [tag; neg; k] *)
+Definition c18_timeout_parse_int (a : list Z) : list Z :=
+  match a with [i] => enc_opt_f64 (timeout_parse_int i) | _ => [] end.
+Definition c18_timeout_parse_float (a : list Z) : list Z :=
+  match dec_f64 a with Some v => enc_opt_f64 (timeout_parse_float v) | None => [] end.
+
 (* the float library model on its own: float(s), repr(v) *)
 Definition c18_py_float (a : list Z) : list Z := enc_opt_f64 (py_float a).
 Definition c18_float_repr (a : list Z) : list Z :=
@@ -173,6 +179,8 @@ Definition table : list (string * (list Z -> list Z)) :=
     ("c18_trace_unparse"%string, c18_trace_unparse);
     ("c18_timeout_parse"%string, c18_timeout_parse);
     ("c18_timeout_unparse"%string, c18_timeout_unparse);
+    ("c18_timeout_parse_int"%string, c18_timeout_parse_int);
+    ("c18_timeout_parse_float"%string, c18_timeout_parse_float);
     ("c18_py_float"%string, c18_py_float);
     ("c18_float_repr"%string, c18_float_repr);
     ("c18_arrlen_parse"%string, c18_arrlen_parse);
